@@ -34,7 +34,8 @@ LEVEL_TEXT = ("Lean theorems over ℝ / IEEE classes: a component outside [lower
               "declared scaling parameter is not among the statically realised parameters — never because of a draw, for every "
               "stream and recursion depth (no_range_error, inside_box_inside_range), and conversely a missing scaling "
               "parameter always raises.  Correspondence: class of the result and evaluated-or-not on random "
-              "configurations; the statement evaluated on CosmoLikelihood.likelihood.")
+              "configurations; the statement evaluated on CosmoLikelihood.likelihood with the prior box stated BY NAME from the user's "
+              "bound dictionaries (log10 for the scatters sampled in log-space), every component pushed just outside its own bounds.")
 LEVEL_NOTE = ("partial: non-NaN behaviour of astropy/numpy/scipy inside the box is a hypothesis on the externals (explored by the "
               "boundary-biased search); float overflow outside the model; the interpolators' own range errors (scipy) are covered by C09/C10 (draws "
               "stay inside the grid), not re-proved here")
@@ -48,7 +49,8 @@ COSMO_BOX = {
 }
 
 
-def gen_config(rng):
+def gen_config(rng, force=False):
+    """force: the configuration with the most sampled blocks (log-space scatters, two anisotropy scatters)"""
     cosmology = rng.choice(["FLCDM", "FwCDM", "w0waCDM", "oLCDM", "oLCDM"])
     npop = rng.choice([0, 0, 1])
     lenses = []
@@ -78,15 +80,27 @@ def gen_config(rng):
     if rng.random() < 0.3:
         model["alpha_lambda_sampling"] = True
         lo_l["alpha_lambda"], up_l["alpha_lambda"] = -1.0, 1.0
-    if has_grid or rng.random() < 0.3:
-        model.update(anisotropy_sampling=True, anisotropy_model="OM")
+    logsc = force or rng.random() < 0.3
+    if logsc:
+        # scatter parameters sampled in log10-space: their (positive) bounds enter the box as log10
+        model["log_scatter"] = True
+        if "lambda_mst_sigma" in lo_l:
+            lo_l["lambda_mst_sigma"], up_l["lambda_mst_sigma"] = rng.choice([0.001, 0.01]), 0.5
+    if force or has_grid or rng.random() < 0.3:
+        gom = force or rng.random() < 0.35
+        model.update(anisotropy_sampling=True, anisotropy_model="GOM" if gom else "OM")
         lo_k["a_ani"], up_k["a_ani"] = 0.5, 4.0      # = the grid range of c07.gen_lens
-        if rng.random() < 0.5:
+        if gom:
+            lo_k["beta_inf"], up_k["beta_inf"] = 0.0, 1.0
+        if force or rng.random() < (0.8 if gom else 0.5):
             model["anisotropy_distribution"] = "GAUSSIAN"
-            lo_k["a_ani_sigma"], up_k["a_ani_sigma"] = 0.0, 1.0
+            lo_k["a_ani_sigma"], up_k["a_ani_sigma"] = (rng.choice([0.01, 0.05]) if logsc else 0.0), 1.0
+            if gom:
+                # a different box for the second anisotropy scatter
+                lo_k["beta_inf_sigma"], up_k["beta_inf_sigma"] = (0.001 if logsc else 0.0), rng.choice([0.1, 0.3])
     if has_kin and rng.random() < 0.4:
         model["sigma_v_systematics"] = True
-        lo_k["sigma_v_sys_error"], up_k["sigma_v_sys_error"] = 0.0, 0.5
+        lo_k["sigma_v_sys_error"], up_k["sigma_v_sys_error"] = (0.001 if logsc else 0.0), 0.5
     sne = rng.random() < 0.25
     if has_mag or sne:
         model["sne_apparent_m_sampling"] = True
@@ -102,6 +116,40 @@ def gen_config(rng):
                   kwargs_lower_kin=lo_k, kwargs_upper_kin=up_k, kwargs_lower_source=lo_s, kwargs_upper_source=up_s,
                   kwargs_lower_los=lo_los, kwargs_upper_los=up_los)
     return dict(cosmology=cosmology, lenses=lenses, model=model, bounds=bounds, sne=sne, num_draws=rng.choice([2, 3]))
+
+
+LOGGED = {"lambda_mst_sigma", "lambda_ifu_sigma", "gamma_in_sigma", "log_m2l_sigma", "a_ani_sigma", "beta_inf_sigma",
+          "sigma_v_sys_error"}
+
+
+def box_by_name(cfg, names):
+    """the prior box stated independently of the library's own bookkeeping: component i is the parameter NAMED names[i],
+    its bounds are the entries of that name in the user's bound dictionaries (log10 of them for the scatter parameters
+    sampled in log-space under log_scatter)"""
+    import re
+    b = cfg["bounds"]
+    log = bool(cfg["model"].get("log_scatter", False))
+    lo, up = [], []
+    for nm in names:
+        found = None
+        for blk in ("cosmo", "lens", "kin", "source"):
+            lod = b.get("kwargs_lower_" + blk) or {}
+            if nm in lod:
+                found = (lod[nm], (b.get("kwargs_upper_" + blk) or {})[nm])
+                break
+        if found is None:
+            m = re.match(r"^(mean|sigma|xi)_los_(\d+)$", nm)
+            if m:
+                k = int(m.group(2))
+                found = (b["kwargs_lower_los"][k][m.group(1)], b["kwargs_upper_los"][k][m.group(1)])
+        if found is None:
+            raise KeyError("no user bound for sampled parameter %r" % nm)
+        a, c = float(found[0]), float(found[1])
+        if log and nm in LOGGED:
+            a, c = math.log10(a), math.log10(c)
+        lo.append(a)
+        up.append(c)
+    return lo, up
 
 
 def build(cfg):
@@ -263,15 +311,21 @@ def run(ctx, res):
     ncfg = ctx.n(28, 400)
     lines, meta = [], []
     for t in range(ncfg):
-        cfg = gen_config(rng)
+        cfg = gen_config(rng, force=(t < 2))
         try:
             cl = build(cfg)
         except Exception as e:  # noqa
             res.notes.append("construction failed: %r" % (e,))
             res.count("ctor_fail")
             continue
-        lo, up = [float(v) for v in cl.param.param_bounds[0]], [float(v) for v in cl.param.param_bounds[1]]
+        lo, up = box_by_name(cfg, cl.param.param_list())
         vectors = [(k, gen_vector(rng, lo, up, k)) for k in KINDS]
+        # every component against ITS OWN bounds: one vector per component and side, just outside
+        for i in range(len(lo)):
+            for side in (0, 1):
+                x = gen_vector(rng, lo, up, "inside")
+                x[i] = float(np.nextafter(lo[i], -np.inf)) if side == 0 else float(up[i] + 1e-9 * max(1.0, abs(up[i])))
+                vectors.append(("own_bound_%d_%s" % (i, "lo" if side == 0 else "up"), x))
         # the same gate must act when the caller supplies tabulated distances
         vectors += [("tab_" + k, gen_vector(rng, lo, up, k)) for k in ("inside", "far_outside")]
         if cfg["cosmology"] == "oLCDM":
@@ -344,7 +398,7 @@ def run(ctx, res):
 def replay(ctx, data):
     cfg, x, kind = dec(data["input"])
     cl = build(cfg)
-    lo, up = [float(v) for v in cl.param.param_bounds[0]], [float(v) for v in cl.param.param_bounds[1]]
+    lo, up = box_by_name(cfg, cl.param.param_list())
     np.random.seed(0)
     fails = oracle(cfg, cl, x, kind, lo, up)[0]
     return bool(fails), "oracle on the implementation: %s" % (fails or "holds")
